@@ -1891,6 +1891,7 @@ impl TransactionBuilder {
                         asset_to_add: (PolicyID, AssetName, BigNum),
                         max_value_size: u32,
                         data_cost: &DataCost,
+                        max_coin: &Coin,
                     ) -> Result<bool, JsError> {
                         let (policy, asset_name, value) = asset_to_add;
                         let mut current_assets_clone = current_assets.clone();
@@ -1907,7 +1908,9 @@ impl TransactionBuilder {
                         let mut calc = MinOutputAdaCalculator::new_empty(data_cost)?;
                         calc.set_amount(&val);
                         let min_ada = calc.calculate_ada()?;
-                        amount_clone.set_coin(&min_ada);
+                        // the leftover ADA is later added to a change output without another size check,
+                        // so the value must fit with the widest coin it can end up holding
+                        amount_clone.set_coin(&BigNum::max(&min_ada, max_coin));
 
                         Ok(amount_clone.to_bytes().len() > max_value_size as usize)
                     }
@@ -1972,6 +1975,7 @@ impl TransactionBuilder {
                                     (policy.clone(), asset_name.clone(), value),
                                     max_value_size,
                                     data_cost,
+                                    &change_estimator.coin(),
                                 )? {
                                     // if we got here, this means we will run into a overflow error,
                                     // so we want to split into multiple outputs, for that we...
@@ -2013,7 +2017,7 @@ impl TransactionBuilder {
                             let mut calc = MinOutputAdaCalculator::new_empty(data_cost)?;
                             calc.set_amount(&val);
                             let min_ada = calc.calculate_ada()?;
-                            amount_clone.set_coin(&min_ada);
+                            amount_clone.set_coin(&BigNum::max(&min_ada, &change_estimator.coin()));
 
                             if amount_clone.to_bytes().len() > max_value_size as usize {
                                 output.amount = old_amount;
